@@ -490,7 +490,7 @@ where
                     rank: s.rank(),
                 };
                 let (mut tmp_c, scratch_4) = scratch_3.take_glwe(&tmp_c_infos);
-                self.glwe_sub(&mut tmp_c, res_b, res_a);
+                self.glwe_sub(&mut tmp_c, &tmp_b, &tmp_a);
                 res_big = self.glwe_external_product_internal(res_dft, &tmp_c, s, scratch_4);
             }
 
